@@ -384,6 +384,7 @@ def c01(prog, rep):
     T.rule_t6(prog, rep)
     T.rule_fixup_bypass(prog, rep, rid='T9')
     T.rule_t13(prog, rep)
+    T.rule_t15(prog, rep)
     from . import bufrules as BW
     BW.rule_fmt_complete(prog, rep, [T.UNIT])
     BW.rule_valist_once(prog, rep, [T.UNIT])
@@ -412,6 +413,8 @@ def c04(prog, rep):
     T.rule_t10(prog, rep)
     T.rule_t11(prog, rep)
     T.rule_t11_reserved(prog, rep)
+    T.rule_t14(prog, rep)
+    T.rule_t15(prog, rep)
     from . import dimrules as DM
     DM.rule_wid2(prog, rep, [T.UNIT])
     o = T.rule_t1(prog, rep, rid='T1')
@@ -787,26 +790,57 @@ def run(prop, tier):
     if prop not in PROPS:
         raise AnalysisBroken('no check for property %s' % prop)
     spec = PROPS[prop]
-    rep = Report(prop, tier, level=spec['level'])
     root = repo_root()
     configs = THOROUGH_CONFIGS if tier == 'thorough' else QUICK_CONFIGS
-    for cfg in configs:
-        prog = load_program(cfg, root)
-        from .dataflow import register_identity_functions
-        register_identity_functions(prog)
-        rep.cur_config = cfg
-        rep.configs.append(cfg)
-        if not rep.units:
-            rep.units = [u.rel for u in prog.units]
-        rep.broken_if(len(prog.units) < EXPECTED_UNITS - 2,
-                      'only %d units found (expected about %d)' % (len(prog.units), EXPECTED_UNITS))
-        spec['fn'](prog, rep)
-        if cfg == configs[0]:
-            for rid, n in FLOORS.get(prop, {}).items():
-                if rid in rep.rules:
-                    rep.floor(rid, n)
-                else:
-                    rep.broken.append('rule %s did not run' % rid)
+
+    def attempt(view):
+        rep = Report(prop, tier, level=spec['level'])
+        expanded = []
+        for cfg in configs:
+            prog = load_program(cfg, root)
+            if view:
+                from .inline import inlined_view
+                prog, done = inlined_view(prog)
+                if cfg == configs[0]:
+                    expanded = done
+            from .dataflow import register_identity_functions
+            register_identity_functions(prog)
+            rep.cur_config = cfg
+            rep.configs.append(cfg)
+            if not rep.units:
+                rep.units = [u.rel for u in prog.units]
+            rep.broken_if(len(prog.units) < EXPECTED_UNITS - 2,
+                          'only %d units found (expected about %d)' % (len(prog.units), EXPECTED_UNITS))
+            spec['fn'](prog, rep)
+            if cfg == configs[0]:
+                for rid, n in FLOORS.get(prop, {}).items():
+                    if rid in rep.rules:
+                        rep.floor(rid, n)
+                    else:
+                        rep.broken.append('rule %s did not run' % rid)
+        return rep, expanded
+
+    exc = None
+    rep = None
+    try:
+        rep, _e = attempt(False)
+    except AnalysisBroken as e:
+        exc = e
+    if exc is not None or rep.broken:
+        # An anchor vanished.  Before giving up, look at the program with statement-level calls of single-exit static helpers
+        # expanded in place (qv/inline.py): a helper extraction moves a protocol's stores out of the function a path rule
+        # examines without changing behaviour.  The expanded view is accepted only when it is completely clean - every rule
+        # finds its instances again and discharges them; otherwise the original answer (analysis-broken) stands.
+        try:
+            rep2, expanded = attempt(True)
+            if expanded and not rep2.broken and not rep2.findings:
+                rep2.notes['inlined_view'] = {'reason': str(exc) if exc is not None else '; '.join(rep.broken)[:300],
+                                              'expanded_calls': ['%s <- %s (line %s)' % x for x in expanded][:60]}
+                rep, exc = rep2, None
+        except AnalysisBroken:
+            pass
+    if exc is not None:
+        raise exc
     if tier == 'thorough' or os.environ.get('QV_SELFTEST'):
         from .mutants import run_selftest, run_corpus
         run_selftest(prop, rep, spec['fn'])
